@@ -1,19 +1,25 @@
 import YaegiVerif.Model.Share
 /-
-  C04 — divergence classes of operation sequences (decidable predicates of the INPUT) and the domain
-  `Dom` of the refinement theorem: the sequences that belong to no class.
+  C04 — syntactic shapes of operation sequences.
 
-    (multi-shortcut          multi-assign with a call or a composite literal on the right: repaired by commit
-                             647e2cf of the repository, no longer a class; the model still reproduces the old
-                             behaviour when the fact `shortcutGuardsSingle` is false)
-    (struct-lit-assign       `x = T{…}` rebinding the variable: repaired by 3590fb8, no longer a class)
-    define-lit-in-loop       `x := [n]T{…}` / `[]T{…}` / `map…{…}` inside a loop body   (arrayLit stores through the old cell)
-    (lookup2-stale           missing key leaves the destination unchanged: repaired by 6b8d7ae, no longer a class)
-    lookup2-define-in-loop   `x, ok := m[k]` inside a loop body: no new x per iteration  (getIndexMap2 only stores)
-    multidefine-redeclared   `x, y := …` where x is only redeclared                     (assign: fresh cell for every name)
-    (multidefine-sequential  `x, y := e, x`: F21, repaired by 3e30c22, no longer a class)
+  Until the repairs of 2026-09-26 the refinement theorem had a domain `Dom`: the sequences belonging to none of
+  the divergence classes below. Every class has since been repaired in the repository; the refinement theorem
+  (`Props.C04.ops_refine`) now holds for the WHOLE operation language and `Dom` is gone. The predicates remain
+  as decidable SHAPE labels: the harness counts them to show that its default stream keeps producing the
+  formerly diverging shapes, and the regression / old-fact theorems of Props/C04.lean name them.
+
+    (multi-shortcut          multi-assign with a call or a composite literal on the right: 647e2cf)
+    (struct-lit-assign       `x = T{…}` rebinding the variable: 3590fb8)
+    define-lit-in-loop       `x := [n]T{…}` / `[]T{…}` / `map…{…}` inside a loop body          F04-4, repaired by 1436613
+    (lookup2-stale           missing key leaves the destination unchanged: 6b8d7ae)
+    lookup2-define-in-loop   `x, ok := m[k]` inside a loop body                                 F04-12, repaired by 5a404d3
+    multidefine-redeclared   `x, y := …` where x is only redeclared                             F04-5, repaired by 8bd8040 / 6ebc898
+    (multidefine-sequential  `x, y := e, x`: F21, 3e30c22)
     append-alias-args        `append(s, a, b…)` where an operand after the first is an element / field /
-                             pointee expression                                       (_append passes slots)
+                             pointee expression                                               F04-6, repaired by b312e89
+    nil-deref-map-store      `m[k] = *p`                                                        F04-10, repaired by 93fb945
+    range-ptr-array          `for i, v := range p` with p a pointer to an array (shape: source is not decidable
+                             without types; the harness labels it)                            F04-7, repaired by da35a0b
 -/
 namespace YaegiVerif.Share
 
@@ -45,33 +51,33 @@ def aliasArgs : List RExp → Bool
   | [] => false
   | _ :: rest => rest.any isHandleLoad
 
-def sopClass (inBody : Bool) : SOp → Option String
+def isDerefLoad : RExp → Bool
+  | .load (.deref _) => true
+  | _ => false
+
+/-- the formerly diverging shape of a statement -/
+def sopShape (inBody : Bool) : SOp → Option String
   | .define _ r => if inBody && isArrayLit r then some "define-lit-in-loop" else none
-  | .multidef _ rd _ _ =>
-    if rd.any id then some "multidefine-redeclared" else none
+  | .multidef _ rd _ _ => if rd.any id then some "multidefine-redeclared" else none
   | .append _ _ _ args _ _ _ => if aliasArgs args then some "append-alias-args" else none
-  | .lookup2 isDef x ok _ _ _ =>
-    if isDef && inBody then some "lookup2-define-in-loop" else if isDef && x == ok then some "ill-formed" else none
+  | .lookup2 isDef _ _ _ _ _ _ _ => if isDef && inBody then some "lookup2-define-in-loop" else none
+  | .mapSet _ _ r => if isDerefLoad r then some "nil-deref-map-store" else none
   | _ => none
 
-def sopsClass (inBody : Bool) : List SOp → Option String
-  | [] => none
-  | o :: os => match sopClass inBody o with
-    | some c => some c
-    | none => sopsClass inBody os
+def sopsShapes (inBody : Bool) : List SOp → List String
+  | [] => []
+  | o :: os => match sopShape inBody o with
+    | some c => c :: sopsShapes inBody os
+    | none => sopsShapes inBody os
 
-def opClass : Op → Option String
-  | .s o => sopClass false o
-  | .range _ _ _ body => sopsClass true body
-  | .capture _ _ _ _ _ => none
+def opShapes : Op → List String
+  | .s o => (sopShape false o).toList
+  | .range _ _ _ body => sopsShapes true body
+  | .capture _ _ _ _ _ => []
 
-def classOf : List Op → Option String
-  | [] => none
-  | o :: os => match opClass o with
-    | some c => some c
-    | none => classOf os
-
-/-- the domain of the refinement theorem -/
-def Dom (ops : List Op) : Bool := (classOf ops).isNone
+/-- every formerly diverging shape that occurs in the sequence -/
+def shapesOf : List Op → List String
+  | [] => []
+  | o :: os => opShapes o ++ shapesOf os
 
 end YaegiVerif.Share
